@@ -211,8 +211,10 @@ async def check_ahb(ctx, case):
 
 
 def gen_ahb_case(rng, max_keys):
+    edge = rng.random() < 0.3  # keys from the ends of the ranges: repeatability constraints 2000-2499 are requirement constraints like any other
+
     def cond():
-        pools = G.Pools(rc=["1", "2", "3"], hint=["501", "502"], fc=["901", "902"])
+        pools = G.Pools(rc=["1", "2222", "2499"] if edge else ["1", "2", "3"], hint=["501", "502"], fc=["901", "902"])
         if rng.random() < 0.15:
             return G.gen_neutral_only(rng, rng.randint(1, 2), pools, max_leaves=4)
         return G.gen_eval(rng, rng.randint(0, 2), pools, max_leaves=5)
@@ -257,7 +259,7 @@ async def run(ctx):
                 check_direct(ctx, {"ast": ast, "s": G.render(ast, rng, G.Style(p_redundant=0.0, flat_runs=0.0, spell=0, ws=""))})
                 ctx.count("small_scope_expressions")
     ctx.note("small_scope", "every expression of the evaluation domain (valid and invalid) with up to %d leaves over 2 requirement keys, 1 hint, 2 format constraints, under all 3^k assignments" % (3 if ctx.quick else 4))
-    for i in range(ctx.budget(140, 12_000)):
+    for i in range(ctx.budget(200, 16_000)):
         case = gen_ahb_case(rng, max_keys=5)
         await check_ahb(ctx, case)
         if i % 50 == 0:
